@@ -81,6 +81,75 @@ PROPS['C11'] = dict(
     note='Trusted: Coq kernel, model, extraction, harness. No axioms. Documented non-latching results (WriteZero, Rejected, '
          'NotReady, InvalidRequest, BufferTooSmall, InflightExhausted, send-time PacketTooLarge) are modelled as the code has them.')
 
+PROPS['C14'] = dict(
+    sess=[('sess_c14', 400, 5000)],
+    events='wr', state=['mps', 'ret', 'rel', 'ctl', 'conn', 'live', 'rb', 'pl'],
+    monitors=[M.mon_c14],
+    title='Maximum Packet Size is honoured in both directions',
+    claim='Proved in Coq, one lemma per transmit site with the exact boundary in the statement: the outbound engine only '
+          'writes packets within the limit of the current CONNACK (control packets, PUBREL, retained packets re-checked at send '
+          'time, so a packet retained under a larger limit is refused under a smaller one); publish / subscribe / unsubscribe / '
+          'disconnect above the limit fail without retaining; an acknowledgement that would not fit closes the connection; CONNECT '
+          'advertises the receive-buffer size; the read window never extends past the receive buffer and a declared length '
+          'beyond it is refused. Tied to the code by differential runs with limits 2..1000 and sizes around them, receive '
+          'buffers 4..64, replay under a changed limit, and a wire monitor measuring every packet against the limit.',
+    note='Trusted: Coq kernel, model, extraction, harness, Python MQTT parser. No axioms.')
+
+PROPS['C02'] = dict(
+    sess=[('sess_c02', 300, 4000), ('sweep_c02', 300, 4000)],
+    events='w', state=['ret', 'conn', 'gen', 'h'],
+    monitors=[M.mon_c02, M.mon_c17],
+    title='an accepted QoS 1 publish is never lost: replayed on each resume until PUBACK',
+    claim='Proved in Coq over every step of every operation under every schedule: the bytes of a retained packet, modulo '
+          'the DUP bit, stay in the retained list until an acknowledgement naming its identifier is processed or a fresh '
+          'broker session is established (entry_persist: cancellation, faults, reconnects, compaction, other acks, later '
+          'publishes and replay cannot lose or alter it); every (re)connect rewinds every entry to byte 0 and the engine never '
+          'picks a Sent entry (at most one transmission per connection); DUP marking only sets bit 3 of the first byte; '
+          'removal keeps the order of the others. Tied to the code by differential runs (kill the connection at every I/O '
+          'index, 2-5 consecutive resumes, all ack orders) and a wire monitor comparing every retransmission with the '
+          'retained bytes.',
+    note='Trusted: Coq kernel, model, extraction, harness. No axioms. The wire-level statement (exactly once per resumed '
+         'connection when drained) is checked by the trace monitor on implementation traces, not proved.')
+PROPS['C03'] = dict(
+    sess=[('sess_c03', 300, 4000)],
+    events='w', state=['ret', 'rel', 'conn', 'gen', 'h', 'quota'],
+    monitors=[M.mon_c03, M.mon_c02],
+    title='QoS 2 outbound exchange is exactly-once',
+    claim='Proved in Coq: a successful PUBREC moves the exchange from the retained list to the release list in one step '
+          '(the PUBLISH can never be written again, the PUBREL is owed); the release list always has room (with the quota '
+          'invariant of C06); a failing PUBREC ends the exchange without PUBREL; the release list grows at the tail, PUBCOMP '
+          'deletes in place and the engine serves fresh entries in list order, so replayed PUBRELs keep PUBREC order; '
+          'replay rewinds every owed PUBREL once per connection. Tied to the code by differential runs over concurrent QoS 2 '
+          'exchanges with all PUBREC/PUBCOMP orders and resumed reconnects, and a wire monitor.',
+    note='Trusted: Coq kernel, model, extraction, harness. No axioms. The order clause was false on the unchanged tree '
+         '(swap_remove); repaired by fix 927b0b3.')
+PROPS['C05'] = dict(
+    sess=[('sess_c05', 400, 5000)],
+    events='w', state=['sp', 'gen', 'ret', 'rel', 'srv', 'h', 'cid', 'conn', 'ev', 'pid'],
+    monitors=[M.mon_c05],
+    title='fresh vs. resumed broker session is mirrored in local state and replay',
+    claim='Proved in Coq: clean_start = not session_present with the configured or assigned client id; a successful CONNACK '
+          'sets session_present and no step of any operation (in particular no rejected, garbled or invalid CONNACK) clears it '
+          'again; a failed CONNACK leaves the session untouched; session-present 0 discards everything in flight, resets the '
+          'identifier counter, bumps the generation and invalidates every earlier handle; session-present 1 leaves everything '
+          'in flight untouched with every entry rewound for replay. Tied to the code by differential runs over sequences of '
+          '2-6 connections with arbitrary session-present answers and rejected/garbled/EOF/cancelled handshakes.',
+    note='Trusted: Coq kernel, model, extraction, harness. No axioms. Assumes the u32 generation does not wrap within one '
+         'handle lifetime (2^32 fresh sessions). A literal violation on the unchanged tree was repaired by fix faf7e8e.')
+PROPS['C18'] = dict(
+    sess=[('sess_c18', 400, 5000)],
+    events='', state=['h', 'gen', 'ret', 'rel', 'conn'],
+    monitors=[M.mon_c18, M.mon_c07],
+    title='operation handles tell the truth about completion and invalidation',
+    claim='Proved in Coq: a handle is invalidated exactly when the generation differs, and the generation changes exactly when '
+          'a fresh broker session is established; it is pending exactly while its identifier is in flight and complete '
+          'otherwise; identifiers in flight are unique in every reachable state and an entry leaves the lists only through '
+          'an acknowledgement naming its identifier (or a fresh session), so complete means: its final acknowledgement was '
+          'consumed; a failure reason code is surfaced as Rejected after the entry is removed. Tied to the code by '
+          'differential runs querying the status of every handle after every action.',
+    note='Trusted: Coq kernel, model, extraction, harness. No axioms. Environment assumption (explicit): acknowledgements carry '
+         'the packet type matching the operation (the client matches acks to entries by identifier only).')
+
 TRUSTED_BASE = [
     'Coq 8.16.1 kernel and its bytecode VM (vm_compute); native_compute is not used',
     'axioms: none (every property theorem is reported "Closed under the global context" by Print Assumptions)',
